@@ -104,7 +104,8 @@ def meaning (fetch : Bytes → Option Table) (q : Select) : Option (List Row) :=
 
 /-- sort keys as positions in the output header -/
 def sortKeys (q : Select) (hdr : List Field) : Option (List (Nat × Bool)) :=
-  q.orderBy.mapM fun s => match findColumn s.key hdr with | .ok i => some (i, s.desc) | _ => none
+  -- (a qualified key names a column of that table; an alias is reached by an unqualified key only)
+  q.orderBy.mapM fun s => match findColumn s.key (sortFields q.list hdr) with | .ok i => some (i, s.desc) | _ => none
 
 def sortedBy (keys : List (Nat × Bool)) : List Row → Bool
   | [] => true
